@@ -25,6 +25,7 @@ BYTESTREAM = dict(pkg="./server", test="TestVerifByteStream", name="bytestream",
 HANDLERS = dict(pkg="./server", test="TestVerifHandlersNil", name="handlers", diff=False)
 
 FINDMISSING = dict(pkg="./cache/disk", test="TestVerifFindMissing", name="findmissing", diff=True)
+FINDMISSING_LIVE = dict(FINDMISSING, diff=False, only_sigs=["fm.hang"])   # C14 borrows the run for its liveness bound only
 FMQUEUE = dict(pkg="./cache/disk", test="TestVerifFindMissingStalledBackend", name="fmqueue", diff=False)
 FAILFASTPARK = dict(pkg="./cache/disk", test="TestVerifFailFastParkedWorker", name="failfastpark", diff=False)
 CANCELLED = dict(pkg="./cache/disk", test="TestVerifCancelledRequests", name="cancelled", diff=False)
@@ -135,12 +136,12 @@ PROPS = {
         level_text="Theorems on M8's validator: each invalid class is rejected wherever it occurs, acceptance iff every component is well formed; validator compared with validate.ActionResult on generated messages; server oracle: rejected => nothing served, accepted => served equal modulo worker name, JSON = proto, latest wins. Read-side inlining (model M8b): contents preserved, 3 MiB budget kept, request honoured when it fits, otherwise by true digest with the bytes in the CAS; conditions and visit order of maybeInline regenerated from the source (Bridge.Inline); GetActionResult compared with the model on generated results around the budget.",
         level_note=NOTE + "the validator's verdicts are compared message by message.", technique=TECH),
     "C14": dict(
-        lean="BR.Props.C14", runs=[BLOB, PARSERS, HANDLERS, BYTESTREAM, FDLEAK, UPLOADLEAK, HTTPLEAK, GRPCPROXY], trusted_base=COMMON_TB + ["third-party decoders, the Go runtime and grpc-go are outside the model"],
+        lean="BR.Props.C14", runs=[BLOB, PARSERS, HANDLERS, BYTESTREAM, FDLEAK, UPLOADLEAK, HTTPLEAK, GRPCPROXY, FINDMISSING_LIVE], trusted_base=COMMON_TB + ["third-party decoders, the Go runtime and grpc-go are outside the model"],
         assumptions=["memory exhaustion and real-time hangs cannot be exhibited by the model"],
         level_text="Partial. Theorems: casblob readers total on every byte string, resource-name parsers total, validator and GetTree walk handle absent sub-messages, Write answers every message sequence. Harness: every handler called in-process under recover with absent sub-messages and ill-formed stored blobs; mutated stored files; goroutine/reservation leak oracle. Refused / rejected / aborted uploads on 12 paths and refused SpliceBlob: no handler goroutine, descriptor, reservation or temp file left; descriptor oracle for aborted downloads.",
         level_note=NOTE + "partial: goroutine life cycle, third-party panics and resource exhaustion are checked by oracle only.", technique=TECH),
     "C15": dict(
-        lean="BR.Props.C15", runs=[SRVKEYS, PARSERS, DISK, LOAD], trusted_base=["SHA-256 as an opaque function with an explicit no-collision hypothesis"], assumptions=[],
+        lean="BR.Props.C15", runs=[SRVKEYS, PARSERS, DISK, LOAD, HTTPPROXY], trusted_base=["SHA-256 as an opaque function with an explicit no-collision hypothesis"], assumptions=[],
         level_text="Theorems on M3/M4: LookupKey injective in (key space, hash), file paths of different key spaces disjoint, mangled keys equal iff (key, instance) equal, the HTTP path prefix is the gRPC instance name; server oracle over instance names x both front ends x mangling on/off; URL parser compared with the model.",
         level_note=NOTE + "no-collision hypothesis explicit.", technique=TECH),
     "C16": dict(
